@@ -278,7 +278,9 @@ func main() {
 		seed := fs.Int64("seed", 1, "")
 		tmo := fs.Int("timeout-ms", 20000, "")
 		single := fs.Bool("single", false, "run only method a, twice in a row on one goroutine (self-deadlock / lock leak)")
+		calls := fs.Int("calls", 3, "calls per goroutine and iteration")
 		fs.Parse(os.Args[2:])
+		pairCalls = *calls
 		callTimeout = time.Duration(*tmo) * time.Millisecond
 		os.Exit(runPair(*comp, *a, *b, *iters, *seed, *single))
 	case "seqprobe":
